@@ -1109,6 +1109,27 @@ def check(tier: str, seed: int, t0: float, build: core.BuildStatus) -> int:
                            "broken": "oracle: equal packages whichever of two independent function declarations comes first"})
             else:
                 oc.traces_validated_against_impl += 1
+    # ---- directed: two independent METHOD declarations (one reached through a dereference, one not) in either order ----
+    for backend in BACKENDS:
+        cname, bank, etype = UNIVERSE[backend][0]
+        d1 = {"metadata_type": "add_method_type_info", "type_string": etype, "method_name": "fv_link_pt", "return_type": "double", "deref_count": 1}
+        d2 = {"metadata_type": "add_method_type_info", "type_string": etype, "method_name": "fv_plain_pt", "return_type": "double"}
+        d3 = {"metadata_type": "add_method_type_info", "type_string": etype, "method_name": "fv_link2", "return_type": "float", "deref_count": 2}
+        for body in ("j.fv_link_pt() + j.fv_plain_pt()", "j.fv_plain_pt()", "j.fv_plain_pt() * j.fv_link2()"):
+            q = f'ds.Select(lambda e: e.{cname}("{bank}").Select(lambda j: {body}))'
+            tree = ast.parse(q, mode="eval").body
+            for order_a, order_b in (([d1, d2, d3], [d2, d1, d3]), ([d1, d2, d3], [d3, d2, d1]), ([d2, d3], [d3, d2])):
+                a_src = src_of(with_metadata(tree, order_a, [0] * len(order_a)))
+                b_src = src_of(with_metadata(tree, order_b, [0] * len(order_b)))
+                ra, rb = run_query(a_src, backend), run_query(b_src, backend)
+                oc.evaluations += 1
+                if ra != rb or ra[0] != "ok":
+                    violation("c08:metadata-position", f"the order of independent method declarations (one with deref_count, one without) changes the translation "
+                              f"(or the query is refused): {describe(ra, rb)}; query = {q}",
+                              {"kind": "pair", "variant": "metadata", "backend": backend, "a": a_src, "b": b_src,
+                               "broken": "oracle: equal packages whichever of two independent method declarations comes first"})
+                else:
+                    oc.traces_validated_against_impl += 1
     # ---- rewriter model vs. the real rewriters ----------------------------------------------------
     rw = {"cases": 0, "agree": 0}
     if model is not None:
